@@ -15,7 +15,7 @@ func init() {
 				Name: "helper-kernel", Pkg: pkgHelper, Func: "VH_C01Kernel",
 				Quick: []int{3, 2}, Thorough: []int{4, 3},
 				Bounds: func(a []int) string {
-					return fmt.Sprintf("replicas r in [0,%d] (symbolic), up to %d delete slots each an arbitrary int32 (duplicates, negatives, extremes), plus nil/absent/10 malformed annotation values", a[0], a[1])
+					return fmt.Sprintf("replicas r in [0,%d] (symbolic), up to %d delete slots each an arbitrary int32 (duplicates, negatives, extremes), plus nil/absent/12 malformed annotation values (syntax errors and well-formed lists with an element that is not an int32); every iteration order of the slot set (maps of 2..3 entries) inside GetDeleteSlots, GetMaxReplicaCountAndDeleteSlots and sets.UnsortedList", a[0], a[1])
 				},
 				Asserts: []string{"pod ordinals equal the desired set", "exactly r ordinals", "max ordinal agrees", "min ordinal agrees",
 					"effective slots are the slots inside the range", "desired set is the range minus the effective slots", "input slot set not mutated"},
@@ -24,7 +24,8 @@ func init() {
 		Assumptions: []string{
 			"encoding/json round trip of []int32 is lossless (std library contract); malformed and literal annotation values are decoded by the real encoding/json",
 		},
-		OutsideClaim: []string{"replica counts above the bound", "more delete slots than the bound", "map iteration orders other than insertion order"},
+		MapOrder:     []string{"~UnsortedList", pkgHelper + ".GetMaxReplicaCountAndDeleteSlots", pkgHelper + ".GetDeleteSlots"},
+		OutsideClaim: []string{"replica counts above the bound", "more delete slots than the bound", "iteration orders of maps with more than 3 entries"},
 	})
 
 	ctlStubs := map[string]string{
@@ -57,6 +58,7 @@ func init() {
 		oStalePods
 		oDeleteGone
 		oNoHistory
+		oViaSync
 	)
 	const (
 		mC03 = 1 << iota
@@ -79,7 +81,7 @@ func init() {
 	register(&spec{
 		ID: "C03", Title: "Only pods that must go are ever deleted",
 		Runs: []runSpec{
-			step("step", []int{2, 2, 1, oThreeRevs, mC03}, []int{2, 3, 2, oThreeRevs, mC03},
+			step("step", []int{2, 2, 1, oThreeRevs, mC03}, []int{2, 3, 1, oThreeRevs, mC03},
 				[]string{"every delete has a reason", "live up-to-date desired pod never deleted"},
 				[]string{"scale-in delete", "failed pod replaced", "update delete"}),
 			step("step-wide-ordinals", []int{1, 1, 1, oBase8 | oLeanPods, mC03}, []int{2, 1, 1, oBase8 | oLeanPods | oThreeRevs, mC03},
@@ -92,7 +94,7 @@ func init() {
 	register(&spec{
 		ID: "C04", Title: "Pods are created only at vacant desired ordinals",
 		Runs: []runSpec{
-			step("step", []int{2, 2, 1, oThreeRevs | oDeleting, mC04}, []int{2, 3, 2, oThreeRevs | oDeleting, mC04},
+			step("step", []int{2, 2, 1, oThreeRevs | oDeleting, mC04}, []int{2, 3, 1, oThreeRevs | oDeleting, mC04},
 				[]string{"created ordinal is desired", "created ordinal is not a delete slot", "no create for a set being deleted"},
 				[]string{"vacant ordinal filled", "finished pod re-created"}),
 			step("step-three-healthy-pods", []int{3, 1, 1, oLeanPods | oThreeRevs | oDeleting, mC04}, []int{3, 2, 1, oLeanPods | oThreeRevs | oDeleting, mC04},
@@ -109,6 +111,9 @@ func init() {
 			step("step", []int{3, 2, 1, oPolicyOrdered, mC05}, []int{4, 2, 1, oPolicyOrdered, mC05},
 				[]string{"at most one ordinal is created or deleted per reconcile"},
 				[]string{"ordered create", "ordered scale-in delete", "ordered update delete"}),
+			step("step-through-sync", []int{2, 2, 1, oPolicyOrdered | oLeanPods | oThreeRevs | oViaSync, mC05}, []int{3, 2, 1, oPolicyOrdered | oLeanPods | oThreeRevs | oViaSync, mC05},
+				[]string{"at most one ordinal is created or deleted per reconcile"},
+				[]string{"ordered scale-in delete", "ordered update delete"}),
 			step("step-stale-cache", []int{2, 2, 1, oPolicyOrdered | oLeanPods | oStalePods, mC05}, []int{3, 2, 1, oPolicyOrdered | oStalePods, mC05},
 				[]string{"create only when every lower desired pod exists"},
 				[]string{"a pod exists on the server but not in the cache"}),
@@ -121,7 +126,7 @@ func init() {
 	register(&spec{
 		ID: "C07", Title: "Rolling update honours partition, goes highest-first; OnDelete never restarts",
 		Runs: []runSpec{
-			step("step", []int{2, 2, 1, oThreeRevs, mC07}, []int{2, 3, 2, oThreeRevs, mC07},
+			step("step", []int{2, 2, 1, oThreeRevs, mC07}, []int{2, 3, 1, oThreeRevs, mC07},
 				[]string{"at most one pod is deleted for update per reconcile", "no update delete below the partition"},
 				[]string{"update delete seen", "create with a partition"}),
 			step("step-deleted-pod-already-gone", []int{2, 2, 1, oLeanPods | oThreeRevs | oDeleteGone, mC07 | mC03}, []int{3, 2, 1, oLeanPods | oThreeRevs | oDeleteGone, mC07 | mC03},
@@ -147,7 +152,7 @@ func init() {
 	register(&spec{
 		ID: "C14", Title: "Parallel policy never waits on other pods when scaling",
 		Runs: []runSpec{
-			step("step", []int{2, 2, 1, oPolicyParallel | oThreeRevs, mC14 | mC07}, []int{2, 3, 2, oPolicyParallel | oThreeRevs, mC14 | mC07},
+			step("step", []int{2, 2, 1, oPolicyParallel | oThreeRevs, mC14 | mC07}, []int{2, 3, 1, oPolicyParallel | oThreeRevs, mC14 | mC07},
 				[]string{"every vacant desired ordinal is created in the same reconcile", "every live pod outside the desired set is deleted in the same reconcile",
 					"rolling update still takes down one pod at a time", "update delete only when every higher desired pod is updated and healthy"},
 				[]string{"parallel reconcile checked"}),
@@ -169,6 +174,7 @@ func init() {
 		yStatusConflict
 		yCacheLosesSet
 		ySelectorShapes
+		ySelectorExpr
 	)
 	const (
 		nC10 = 1 << iota
@@ -187,6 +193,9 @@ func init() {
 			syncRun("pods", []int{1, 1, 0, yOwnerDims | yStaleCache | yDeleting, nC10}, []int{2, 2, 0, yOwnerDims | yStaleCache | yDeleting, nC10},
 				[]string{"only unowned pods are adopted", "adoption only after an uncached read confirmed the set", "only pods controlled by this set are released"},
 				[]string{"adopt patch", "release patch", "status written after claiming"}),
+			syncRun("pods-selector-with-expression", []int{1, 1, 0, yOwnerDims | ySelectorExpr, nC10}, []int{2, 1, 0, yOwnerDims | ySelectorExpr, nC10},
+				[]string{"only unowned pods are adopted", "only pods controlled by this set are released", "pods that are not members are not counted"},
+				[]string{"a pod satisfies matchLabels but not the expression", "release patch"}),
 			syncRun("status-conflict", []int{1, 1, 0, yStatusConflict | yHealthDims, nC10}, []int{2, 2, 1, yStatusConflict | yHealthDims, nC10},
 				[]string{"pods that are not members are not counted"},
 				[]string{"fault injected at set.updateStatus"}),
@@ -273,6 +282,12 @@ func init() {
 				},
 				Asserts: []string{"status.updateRevision names a stored revision", "a non-template edit keeps the update revision"},
 				Covers:  []string{"rollback to an older revision", "new template"}},
+			{Name: "revisions-tied-numbers", Pkg: pkgCtl, Func: "VH_Revisions", Quick: []int{2, 16}, Thorough: []int{3, 16},
+				Bounds: func(a []int) string {
+					return fmt.Sprintf("%d stored revisions as above whose numbers may coincide (adopted revisions, racing writers): the history order is number, then creation time, then name", a[0])
+				},
+				Asserts: []string{"status.updateRevision names a stored revision of the current template", "a rollback renumbers the old revision instead of creating one", "an unchanged template writes no revision"},
+				Covers:  []string{"two stored revisions share a number", "rollback to an older revision", "template unchanged"}},
 			{Name: "revisions-conflict-on-renumbering", Pkg: pkgCtl, Func: "VH_Revisions", Quick: []int{2, 8}, Thorough: []int{3, 8},
 				Bounds: func(a []int) string {
 					return fmt.Sprintf("%d stored revisions as above; the write that renumbers a re-used revision may be rejected once with a conflict and is retried by the controller", a[0])
@@ -303,6 +318,12 @@ func init() {
 				},
 				Asserts: []string{"a re-created ordinal re-uses its claims", "claims survive scale-in", "a re-created ordinal references the same claims"},
 				Covers:  []string{"ordinal re-created"}},
+			{Name: "identity-with-template-fields", Pkg: pkgCtl, Func: "VH_Pod", Quick: []int{1, 0, 1}, Thorough: []int{2, 0, 1},
+				Bounds: func(a []int) string {
+					return fmt.Sprintf("as 'recreate' (0..%d claim templates) with a pod template that may itself carry hostname, subdomain, name and namespace", a[0])
+				},
+				Asserts: []string{"hostname is the pod name", "subdomain is the governing service", "pod name is <set>-<ordinal>", "pod lives in the set's namespace"},
+				Covers:  []string{"template carries hostname, subdomain, name and namespace"}},
 		},
 		Stubs:        ctlStubs,
 		Assumptions:  []string{"set name, namespace, service and claim-template names are fixed constants (a name with '-' and a digit); the claim client fake implements only Create, so any update/delete of a claim is a crash of the harness", "ApplyRevision model as in C03"},
@@ -449,7 +470,7 @@ func init() {
 	register(&spec{
 		ID: "C09", Title: "A failure or crash at any API call is reported, harmless, and recoverable",
 		Runs: []runSpec{
-			{Name: "failure", Pkg: pkgCtl, Func: "VH_Fault", Quick: []int{1, 1, 1, oLeanPods | oThreeRevs, 3, 0}, Thorough: []int{1, 2, 1, oThreeRevs, 6, 0}, Bounds: faultBounds,
+			{Name: "failure", Pkg: pkgCtl, Func: "VH_Fault", Quick: []int{1, 1, 1, oLeanPods | oThreeRevs, 3, 0}, Thorough: []int{1, 1, 1, oThreeRevs, 6, 0}, Bounds: faultBounds,
 				Asserts: []string{"a failed API call makes the reconcile report failure", "after the failure a fixed point is reached", "every delete has a reason", "created ordinal is desired", "no pod outside the desired set remains"},
 				Covers:  []string{"a call failed", "recovered from a failure", "fault injected at pod.create", "fault injected at pod.delete", "fault injected at set.updateStatus", "fault injected at rev.list", "fault injected at pvc.create"}, MaxSteps: 40_000_000},
 			{Name: "two-failures", Pkg: pkgCtl, Func: "VH_Fault", Quick: []int{0, 1, 0, oLeanPods, 2, 0, 2}, Thorough: []int{1, 1, 1, oLeanPods | oThreeRevs, 2, 0, 2},
@@ -500,7 +521,7 @@ func init() {
 	register(&spec{
 		ID: "C20", Title: "Hijacked watch relays everything, survives error events, shuts down cleanly",
 		Runs: []runSpec{
-			{Name: "watch", Pkg: pkgHelper, Func: "VH_Watch", Quick: []int{2, 1, 5}, Thorough: []int{3, 2, 5},
+			{Name: "watch", Pkg: pkgHelper, Func: "VH_Watch", Quick: []int{2, 1, 5}, Thorough: []int{2, 2, 5},
 				Bounds: func(a []int) string {
 					return fmt.Sprintf("source sends 0..%d events, each of one of %d types (Added, Modified, Deleted, Bookmark, Error with a Status payload), then closes; the consumer reads any number of them, calls Stop %d time(s) and stops reading; every interleaving of the three goroutines at synchronisation operations with at most 2 (quick) / 3 (thorough) preemptive context switches (switches at blocking operations are unbounded; <= 400 scheduling points)", a[0], a[2], a[1])
 				},
